@@ -5,7 +5,7 @@ from ..core import Unrecognised, norm, call_name, walk_no_nested, const_str
 from ..absint import Sym, ALine, reify
 from ..lowering import ParserModel, Shape, B, constructs
 from ..rx import Rx, Lang, included, MAXREPEAT, RNode
-from .c02 import classify_expr_regexes
+from ..exprsim import classify_expr_regexes
 
 EXPLANATION = (
     'C10.S: both input forms (one string, an iterable of chunks) feed every piece through the same line-split regex '
